@@ -46,7 +46,7 @@ Record st := mkSt {
   params : list (str * str); dtags : list (str * dtag); mtags : list (str * mtag);
   (* control *)
   ifdepth : nat; udef : option umdef; umacros : list (str * umdef); ivars : list (str * str);
-  cdepth : nat; cloc : option (nat * str * str);    (* line, name and file of the outermost user-macro invocation *)
+  cloc : option (nat * str * str);                    (* line, name and file of the outermost user-macro invocation *)
   cfile : str;                                        (* current file *)
   has_cur : bool;                                     (* ctx.loc has a current block (false at end of file) *)
   elided : bool;                                      (* last macro was elided because of a format restriction *)
@@ -66,7 +66,7 @@ Record st := mkSt {
   <macro; args; prev; line; text; process; quiet; inl; asis; par; verse; ws; buf; wout; raw; bf; sblock; sinline; sif;
    toc; lox_toc; lox_nav; lox_lof; lox_lot; lox_lop; ids; images;
    tcell; tcount; ttit; tcols; tid; ttitle; tscope; ttitscope; tinfo; fig; vused; vcount; cid; cidx;
-   params; dtags; mtags; ifdepth; udef; umacros; ivars; cdepth; cloc; cfile; has_cur; elided; format; fontstack; xverse; incell; nesting; filters; existing; urls; mode; files; curfile; navtext; diags; panicked>.
+   params; dtags; mtags; ifdepth; udef; umacros; ivars; cloc; cfile; has_cur; elided; format; fontstack; xverse; incell; nesting; filters; existing; urls; mode; files; curfile; navtext; diags; panicked>.
 #[export] Instance eta_toc : Settable _ := settable! mkToc <hasPart; hasChapter; hcount; pcount; ccount; scount; sscount; pnum; cnum; snum; ssnum>.
 
 (* ctx.Error: respects quiet; location from the outermost user-macro call if any, else the current block *)
